@@ -6,6 +6,7 @@
   *generated* replace chain and decoder class (ICal.Gen, regenerated from /repo each run).
 -/
 import ICal.Lemmas.Text
+import ICal.Lemmas.TextMore
 import ICal.Props.C05
 import ICal.Props.C06
 import ICal.Lemmas.BodiesText
@@ -89,6 +90,87 @@ theorem text_property_route (n : Str) (p : Params) (s : Str) (sorted : Bool)
 example : vTextFromIcal (vTextToIcal ['\\', 'n', ';', ',', ':', '"', '%', '2', 'C', '\r', '\n', '\\', 'N', ' ', 'a'])
     = ['\\', 'n', ';', ',', ':', '"', '%', '2', 'C', '\n', '\n', ' ', 'a'] := by decide
 example : catsFromIcal (catsToIcal [['a', ',', 'b'], ['\\'], [], [';']]) = [['a', ',', 'b'], ['\\'], [], [';']] := by decide
+
+/-! ## Clause pass (round 10) -/
+
+/-- "No unescaped semicolon or comma", positionally: wherever a `;` or `,` stands in the encoded
+    form of ANY string, the run of backslashes that ends just before it has odd length (so a reader
+    that pairs backslashes from the left sees it as escaped). -/
+theorem escape_delims_escaped (s pre post : Str) (c : Char)
+    (h : vTextToIcal s = pre ++ c :: post) (hc : c = ';' ∨ c = ',') : bsRun pre % 2 = 1 := by
+  have := wellEscaped_delim_par _ (escape_wellformed s) pre c post h hc
+  rw [escPar_eq_odd] at this
+  simpa using this
+
+example : vTextToIcal ['a', '\\', ';', ','] = ['a', '\\', '\\', '\\', ';', '\\'] ++ ',' :: [] ∧
+    bsRun ['a', '\\', '\\', '\\', ';', '\\'] = 1 ∧ bsRun ['a', '\\', '\\', '\\'] = 3 := by decide
+
+/-- "No raw line break" is about LF (§5.3/2): the encoded form holds no LF, hence no CRLF pair;
+    a bare CR is kept as it is (second component: it does occur). -/
+theorem escape_no_crlf_bare_cr_kept :
+    (∀ s, noPair CR LF (vTextToIcal s) = true) ∧ vTextToIcal [CR] = [CR] := by
+  refine ⟨fun s => ?_, by decide⟩
+  have h := escape_no_linebreak s
+  generalize vTextToIcal s = t at h
+  fun_induction noPair CR LF t with
+  | case1 => rfl
+  | case2 c => rfl
+  | case3 c d cs ih =>
+    have hd : d ≠ LF := fun e => h (by simp [e])
+    have := ih (fun hm => h (List.mem_cons_of_mem _ hm))
+    simp [hd, this]
+
+/-- The encoder identifies exactly the strings with the same normal form: it is injective on
+    normalised strings and loses nothing else. -/
+theorem escape_injective_iff (s t : Str) : vTextToIcal s = vTextToIcal t ↔ norm s = norm t := by
+  constructor
+  · intro h
+    have := congrArg vTextFromIcal h
+    rwa [text_roundtrip, text_roundtrip] at this
+  · intro h; unfold vTextToIcal; rw [escape_tokens, escape_tokens, h]
+
+example : vTextToIcal ['\\', 'N', 'a'] = vTextToIcal ['\r', '\n', 'a'] ∧ norm ['\\', 'N', 'a'] = ['\n', 'a'] := by decide
+
+/-- Is the documented normalisation a projection (is a decoded text a fixed point of the round
+    trip)?  Full statement: -/
+def norm_idem_full : Prop := ∀ s : Str, norm (norm s) = norm s
+
+/-- It is, exactly when the normal form holds no CRLF pair and no backslash-N pair … -/
+theorem norm_idem_partial (s : Str)
+    (h1 : noPair BS 'N' (norm s) = true) (h2 : noPair CR LF (norm s) = true) :
+    norm (norm s) = norm s := by
+  show rep2 CR LF [LF] (rep2 BS 'N' [LF] (norm s)) = norm s
+  rw [rep2_noPair _ _ _ _ h1, rep2_noPair _ _ _ _ h2]
+
+example : noPair BS 'N' (norm ['\\', '\\', 'N', 'N', '\r', '\n']) = true ∧
+    noPair CR LF (norm ['\\', '\\', 'N', 'N', '\r', '\n']) = true := by decide
+
+/-- … and the code's normalisation is NOT a projection: `CR CR LF` normalises to `CR LF`, which
+    normalises to `LF`. A value read back from a file changes again on the next write/read
+    (replayed on the code: SUMMARY "\r\r\n" reads back as "\r\n", and after one more
+    serialise/parse as "\n"). -/
+theorem norm_idem_full_false : ¬ norm_idem_full := by
+  intro h; exact absurd (h [CR, CR, LF]) (by decide)
+
+theorem second_roundtrip_witness :
+    vTextFromIcal (vTextToIcal [CR, CR, LF]) = [CR, LF] ∧
+    vTextFromIcal (vTextToIcal (vTextFromIcal (vTextToIcal [CR, CR, LF]))) = [LF] := by decide
+
+/-- CATEGORIES for EVERY list length: the full statement fails exactly at the empty list (the
+    empty list is written as the empty text, which reads back as one empty item); all other lengths
+    are `categories_roundtrip`, whose items may be empty or end in a backslash. -/
+def categories_roundtrip_full : Prop := ∀ xs : List Str, catsFromIcal (catsToIcal xs) = xs.map norm
+
+theorem categories_roundtrip_iff (xs : List Str) :
+    catsFromIcal (catsToIcal xs) = xs.map norm ↔ xs ≠ [] := by
+  constructor
+  · rintro h rfl; exact absurd h (by decide)
+  · exact categories_roundtrip xs
+
+theorem categories_empty_witness : ¬ categories_roundtrip_full ∧ catsFromIcal (catsToIcal []) = [[]] :=
+  ⟨fun h => absurd (h []) (by decide), by decide⟩
+
+example : catsFromIcal (catsToIcal [[], ['a', '\\'], ['\\', '\\'], []]) = [[], ['a', '\\'], ['\\', '\\'], []] := by decide
 
 /-! ## Regenerated function body = hand model
 
